@@ -9,12 +9,17 @@
      HelloRetryRequest re-added) and _serverGetClientHello (reset, message_hash; the HRR itself
      is then fed by _sendMsgs): `[MHash (hash .. [MCH ch1]); MSH hrr]` on both sides.
      update_binders / verify_binder: `pre ++ [MCH (ch_truncate c)]` in binders_for / binder_ok.
-   * guard_sites.  sentinel_check x2 = sentinel_hit; sentinel_write x4 = sentinel_for: two in
+   * sentinel checks and writes are NOT compared as text any more: translator/units_c04.py EXECUTES the client's
+     region between _clientGetServerHello and the first branch (TLS 1.3 / resumption / key exchange) and the
+     statements that build the random of every TLS <= 1.2 ServerHello over their whole finite domain
+     (sentinel_check_table, sentinel_write_table); Props/C04.sentinel_sites_decide_as_modelled compares those
+     tables with sentinel_hit / sentinel_for.  guard_positions keeps WHERE they stand.
+   * guard_sites.  (formerly also: sentinel_check x2 = sentinel_hit; sentinel_write x4 = sentinel_for: two in
      _handshakeServerAsyncHelper (full handshake, run12) and, since /repo 9a5e0f9, two in
      _serverGetClientHello for the resumed ServerHello (run12r); server_hello_sites shows that both
      TLS <= 1.2 ServerHello constructions take `random`, i.e. the value the writes act on; scsv_check = scsv_hit; hrr_second_hello_compare = hrr_second_ok;
      finished_compare = the zl_eqb tests on received Finished values (full equality);
-     binder_compare = binder_ok.
+     binder_compare = binder_ok.)
    * client_hello_sites / client_suite_sites.  client_hello_suites / client_first_hello: the list starts
      with the renegotiation SCSV, TLS_FALLBACK_SCSV is appended to wireCipherSuites iff
      settings.sendFallbackSCSV, and BOTH ClientHello.create calls (with and without an offered session id)
@@ -24,7 +29,6 @@
 From Coq Require Import List String.
 Import ListNotations.
 Open Scope string_scope.
-
 
 Definition expected_hash_sites : list (string * string * string * string * string) := [
   ("tlslite/tlsrecordlayer.py", "__init__", "assign", "self._handshake_hash = HandshakeHashes()", "");
@@ -43,15 +47,9 @@ Definition expected_hash_sites : list (string * string * string * string * strin
 
 Definition expected_guard_sites : list (string * string * string * string * string * string) := [
   ("tlslite/tlsrecordlayer.py", "_handle_srv_pha", "finished_compare", "finished.verify_data != verify_data", "alert AlertDescription.decrypt_error", "");
-  ("tlslite/tlsconnection.py", "_handshakeClientAsyncHelper", "sentinel_check", "(settings.maxVersion > (3, 3) and self.version <= (3, 3)) and (serverHello.random[-8:] == TLS_1_2_DOWNGRADE_SENTINEL or serverHello.random[-8:] == TLS_1_1_DOWNGRADE_SENTINEL)", "alert AlertDescription.illegal_parameter", "");
-  ("tlslite/tlsconnection.py", "_handshakeClientAsyncHelper", "sentinel_check", "settings.maxVersion == (3, 3) and self.version < (3, 3) and (serverHello.random[-8:] == TLS_1_1_DOWNGRADE_SENTINEL)", "alert AlertDescription.illegal_parameter", "");
   ("tlslite/tlsconnection.py", "_clientTLS13Handshake", "finished_compare", "finished.verify_data != verify_data", "raise TLSDecryptionFailed", "");
-  ("tlslite/tlsconnection.py", "_handshakeServerAsyncHelper", "sentinel_write", "random[-8:] = TLS_1_2_DOWNGRADE_SENTINEL", "if version == (3, 3) and settings.maxVersion > (3, 3)", "");
-  ("tlslite/tlsconnection.py", "_handshakeServerAsyncHelper", "sentinel_write", "random[-8:] = TLS_1_1_DOWNGRADE_SENTINEL", "if version < (3, 3) and settings.maxVersion >= (3, 3)", "");
   ("tlslite/tlsconnection.py", "_serverTLS13Handshake", "finished_compare", "cl_finished.verify_data != cl_verify_data", "alert AlertDescription.decrypt_error", "");
   ("tlslite/tlsconnection.py", "_serverGetClientHello", "scsv_check", "version < settings.maxVersion and CipherSuite.TLS_FALLBACK_SCSV in clientHello.cipher_suites", "alert AlertDescription.inappropriate_fallback", "");
-  ("tlslite/tlsconnection.py", "_serverGetClientHello", "sentinel_write", "random[-8:] = TLS_1_2_DOWNGRADE_SENTINEL", "if clientHello.session_id and sessionCache or (ticket_ext and ticket_ext.ticket) && if session && if version == (3, 3) and settings.maxVersion > (3, 3)", "");
-  ("tlslite/tlsconnection.py", "_serverGetClientHello", "sentinel_write", "random[-8:] = TLS_1_1_DOWNGRADE_SENTINEL", "if clientHello.session_id and sessionCache or (ticket_ext and ticket_ext.ticket) && if session && if version < (3, 3) and settings.maxVersion >= (3, 3)", "");
   ("tlslite/tlsconnection.py", "_serverGetClientHello", "hrr_second_hello_compare", "clientHello1 != clientHello", "alert AlertDescription.illegal_parameter", "if version > (3, 3) && if hrr_ext");
   ("tlslite/tlsconnection.py", "_getFinished", "finished_compare", "finished.verify_data != verifyData", "alert AlertDescription.decrypt_error", "");
   ("tlslite/handshakehelpers.py", "verify_binder", "binder_compare", "not ct_compare_digest(binder, ext.binders[position])", "raise TLSIllegalParameterException", "")
@@ -65,9 +63,9 @@ Definition expected_server_hello_sites : list (string * string * string * string
 ].
 
 Definition expected_guard_positions : list (string * string * string) := [
-  ("tlslite/tlsconnection.py", "_handshakeClientAsyncHelper", "call:_clientGetServerHello < sentinel_check < sentinel_check < call:_clientTLS13Handshake < call:_clientResume < call:_clientKeyExchange");
-  ("tlslite/tlsconnection.py", "_handshakeServerAsyncHelper", "call:_serverTLS13Handshake < sentinel_write < sentinel_write < server_hello_create");
-  ("tlslite/tlsconnection.py", "_serverGetClientHello", "version_assigned < version_assigned < version_assigned < scsv_check < sentinel_write < sentinel_write < server_hello_create < call:_server_select_certificate < server_hello_create < hrr_second_hello_compare")
+  ("tlslite/tlsconnection.py", "_handshakeClientAsyncHelper", "call:_clientGetServerHello < sentinel_check < call:_clientTLS13Handshake < call:_clientResume < call:_clientKeyExchange");
+  ("tlslite/tlsconnection.py", "_handshakeServerAsyncHelper", "call:_serverTLS13Handshake < sentinel_write < server_hello_create");
+  ("tlslite/tlsconnection.py", "_serverGetClientHello", "version_assigned < scsv_check < sentinel_write < server_hello_create < call:_server_select_certificate < server_hello_create < hrr_second_hello_compare")
 ].
 
 Definition expected_client_hello_sites : list (string * string * string * string * string * string) := [
@@ -89,3 +87,5 @@ Definition expected_client_suite_sites : list (string * string * string * string
   ("tlslite/tlsconnection.py", "_clientSendClientHello", "", "wireCipherSuites = list(cipherSuites)");
   ("tlslite/tlsconnection.py", "_clientSendClientHello", "if settings.sendFallbackSCSV", "wireCipherSuites.append(CipherSuite.TLS_FALLBACK_SCSV)")
 ].
+
+Definition expected_sentinel_write_functions : list string := ["_handshakeServerAsyncHelper"; "_serverGetClientHello"].
